@@ -1,0 +1,11 @@
+//go:build verif
+
+package core_domain
+
+// Contracts checked by /verif (vcgo). Comment-only: no executable code.
+
+//@ spec IsGS(f CodeFunction) bool := HasPrefix(f.Name, "set") || HasPrefix(f.Name, "get")
+
+//@ func CodeFunction.IsGetterSetter
+//@ requires m != nil
+//@ ensures result <==> IsGS(*m)
